@@ -246,6 +246,8 @@ def oracle (obs : List (List String × String)) : Verdict :=
             | none =>
               if Spec.C09.sizeResidueRacingDelete tr calls then
                 Verdict.fail s!"size-residue-racing-delete:op#{tr.length}" (tags ++ ["conc"])
+              else if Spec.C09.sizeStaleRacingRead tr calls then
+                Verdict.fail s!"size-stale-after-dedup:conc-op#{tr.length}" (tags ++ ["conc"])
               else if Spec.C09.sizeRacy tr calls then
                 Verdict.fail s!"size-wrong-concurrent:op#{tr.length}" (tags ++ ["conc"])
               else if Spec.C09.holdsOnConc tr calls then
@@ -254,6 +256,8 @@ def oracle (obs : List (List String × String)) : Verdict :=
                   tags := tags ++ ["conc"] ++ (if overl then ["conc:overlapping"] else []) }
               else if Spec.C09.lostWriteRacingDelete tr calls then
                 Verdict.fail s!"lost-write-racing-delete:op#{tr.length}" (tags ++ ["conc"])
+              else if Spec.C09.lostWriteRacingInit tr calls then
+                Verdict.fail s!"lost-write-racing-init:op#{tr.length}" (tags ++ ["conc"])
               else Verdict.fail s!"non-linearizable-history:op#{tr.length}" (tags ++ ["conc"])
         | _, _ => Verdict.fail "bad-answer:history"
       | _ => Verdict.fail "bad-line:ops-after-conc"
